@@ -132,6 +132,7 @@ pub struct Kernel {
     pub port_lo: u16,
     pub port_n: u16,
     pub port_next: u16,
+    pub agent_port_next: u16,
     pub ports_in_use: BTreeSet<u16>,
     pub current: TaskIds,
     pub connects: u64,
@@ -156,6 +157,7 @@ pub fn reset() {
         port_lo: 40000,
         port_n: 20000,
         port_next: 0,
+        agent_port_next: 0,
         ports_in_use: BTreeSet::new(),
         current: TaskIds::default(),
         connects: 0,
@@ -261,7 +263,20 @@ pub struct ConnectResult {
 }
 
 /// allocate a source port; `pick` chooses among the free ones (seeded by the caller)
-fn alloc_port(k: &mut Kernel, pick: u64) -> Option<u16> {
+fn alloc_port(k: &mut Kernel, pick: u64, agent: bool) -> Option<u16> {
+    if agent {
+        // the agent's own outbound connections draw from a separate large range so that a deliberately
+        // tiny client range (port-reuse scenarios) cannot starve them
+        for _ in 0..10000 {
+            let p = 50000 + (k.agent_port_next % 10000);
+            k.agent_port_next = (k.agent_port_next + 1) % 10000;
+            if !k.ports_in_use.contains(&p) {
+                k.ports_in_use.insert(p);
+                return Some(p);
+            }
+        }
+        return None;
+    }
     let n = k.port_n as u64;
     // small ranges: seeded pick among free ports (reuse is frequent); large ranges: rotate
     if n <= 64 {
@@ -314,7 +329,7 @@ pub fn connect(task: TaskIds, protocol: u32, family: u32, dst_ip: Ipv4Addr, dst_
         if redirected {
             k.redirects += 1;
         }
-        alloc_port(k, pick)
+        alloc_port(k, pick, task.tgid == crate::procs::AGENT_PID)
     })?;
     // phase 2: kprobe/tcp_v4_connect (TCP over IPv4 only)
     if let (Some((_, kprobe)), true) = (hooks, kp) {
